@@ -88,8 +88,18 @@ def impl(case):
         except Exception as e:
             return type(e).__name__
     try:
-        rt = Route(case['pattern'], lambda: Response('x'))
-        app = Application([rt], slash_mode=case['mode'])
+        if case.get('embedded'):
+            # the application is mounted, as it is, in another one with another slash mode (inherit_slashes=False: it
+            # keeps its own); its route was declared as a plain tuple
+            from clastic import SubApplication
+            inner = Application([(case['pattern'], lambda: Response('x'))], slash_mode=case['mode'])
+            other = {'strict': 'redirect', 'redirect': 'strict', 'rewrite': 'strict'}[case['mode']]
+            app = Application([SubApplication('/', inner, inherit_slashes=False)], slash_mode=other)
+            if case['embedded'] == 2:
+                app = Application([SubApplication('/', app, inherit_slashes=False)], slash_mode=case['mode'])
+        else:
+            rt = Route(case['pattern'], lambda: Response('x'))
+            app = Application([rt], slash_mode=case['mode'])
     except Exception as e:
         return {'construct': type(e).__name__}
     br = app.routes[0]
@@ -398,6 +408,8 @@ def gen_case(rng, tier, elems=None):
     case = {'lab': 'match', 'elems': [list(e) for e in elems], 'trailing': rng.random() < 0.4,
             'mode': rng.choice(MODES), 'L': L}
     case['pattern'] = pattern_src([tuple(e) for e in case['elems']], case['trailing'])
+    if rng.random() < 0.25:
+        case['embedded'] = rng.choice([1, 1, 2])
     # long random paths assembled from valid segments with mutations
     segpool = ['a', 'b', 'a-1', 'x_y', '1', '5', '15', '-5', '+1', ' 5', '+ 5', '1.5', '.5', '5.', '1e5', '1e+5', '-.5e-1',
                'e', '1e', '.', '-', '+', 'ab', 'é', '5a', ' ', '1 5', '0' * 30,
@@ -437,7 +449,7 @@ def gen_case(rng, tier, elems=None):
     return case
 
 
-INVALID_KINDS = ['no_leading_slash', 'double_slash', 'duplicate', 'unknown_type', 'unknown_op', 'valid']
+INVALID_KINDS = ['no_leading_slash', 'double_slash', 'duplicate', 'unknown_type', 'unknown_op', 'valid', 'empty']
 
 
 def gen_invalid(rng):
@@ -455,6 +467,8 @@ def gen_invalid(rng):
             binding_src('dup', rng.choice(OPS), rng.choice(TYPES))
     elif kind == 'unknown_type':
         s = s.rstrip('/') + '/<q%s%s>' % (rng.choice([':', '?', '*', '+']), rng.choice(['foo', 'integer', 'Int', 'bool', 'path']))
+    elif kind == 'empty':
+        s = ''                              # no leading slash either
     elif kind == 'unknown_op':
         s = s.rstrip('/') + '/<q%s%s>' % (rng.choice(['*?', '!', '::', '+?', '=', '**', '-', '.', '~']), rng.choice(['int', '', 'str']))
     return {'lab': 'invalid', 'pattern': s, 'kind': kind}
